@@ -700,10 +700,20 @@ func (g *Gen) NextStep(r *Runner) *Step {
 	if !g.NoReconf {
 		add(2, func() *Step { return g.ReconfStep(r) })
 	}
-	if cfg.Policy == PolTA {
+	if cfg.Policy == PolTA && !r.Down {
+		// The cold-start timer fires for exactly the running containers whose grant carries a cold-start period (that is
+		// what the policy arms a timer for at StartContainer): read it from the policy rather than re-deriving it from the
+		// annotations, so that a grant that wrongly carries one gets its event too.
+		armed := map[string]bool{}
+		if sn := r.Inst.TASnap(); sn != nil {
+			for _, g := range sn.Grants {
+				if g.ColdStart > 0 {
+					armed[g.Container] = true
+				}
+			}
+		}
 		for _, c := range live {
-			// the policy arms no cold-start timer for memory.preserve containers, so the event cannot occur for them
-			if _, ok := EffAnn(r.M.Pods[c.Pod], c.Name, "cold-start."+nsKey); ok && c.State == StRunning && !r.memPreserveAnn(c) {
+			if c.State == StRunning && armed[c.ID] {
 				cc := c
 				add(3, func() *Step { return &Step{Op: "coldstart-done", Ctr: cc.Key, Pod: cc.Pod} })
 				break
